@@ -341,4 +341,11 @@ def r5_clamps_and_siblings(ctx):
     ctx.check(ok, cd.qual, "release bounded by the trapped charge, capture bounded by the empty traps" if ok else "clip_diff no longer bounds the exchanged charge on both sides (trapped charge can go negative / exceed capacity)", where=cd, node=cd.node)
 
 
-RULES = [r1_ipc_weights, r2_conservation, r3_no_lost_update, r4_simple_laws, r5_clamps_and_siblings]
+def r6_clusters_land_in_their_pixel(ctx):
+    """"Simple collection adds exactly the generated charge to the pixels": charge generated as clusters reaches the pixel array through Charge.convert_df_to_array, which bins the vertical position by the vertical pixel size and the horizontal one by the horizontal size (shared with C14.R2)."""
+    from props.C14 import r2_binning
+
+    r2_binning(ctx)
+
+
+RULES = [r6_clusters_land_in_their_pixel, r1_ipc_weights, r2_conservation, r3_no_lost_update, r4_simple_laws, r5_clamps_and_siblings]
